@@ -10,6 +10,30 @@ HERE = os.path.dirname(os.path.abspath(__file__))
 VERIF = os.path.dirname(HERE)
 
 
+def _arm_watchdog(ctx):
+    """Backstop against a run that never returns (e.g. a changed library that loops for ever inside one
+    case): far beyond the K/S budget the process prints the stack of every thread, records an
+    infrastructure error and exits 2 -- a hang is never a pass and never, by itself, a violation.
+    (Per-case deadlines that turn a hang into a replayable finding live in the property modules.)"""
+    import faulthandler
+    import threading
+    limit = float(os.environ.get("VERIF_HARD_LIMIT_S", 0)) or ctx.budget_s * 8 + 300
+
+    def fire():
+        try:
+            sys.stderr.write("INFRA: %s still running %.0f s after the Lean audit (budget %d s): giving up\n"
+                             % (ctx.prop, limit, ctx.budget_s))
+            faulthandler.dump_traceback(file=sys.stderr, all_threads=True)
+            sys.stderr.flush()
+            sys.stdout.write("INFRA property=%s hard time limit exceeded\n" % ctx.prop)
+            sys.stdout.flush()
+        finally:
+            os._exit(2)
+    t = threading.Timer(limit, fire)
+    t.daemon = True
+    t.start()
+
+
 def main():
     ap = argparse.ArgumentParser()
     ap.add_argument("prop")
@@ -51,6 +75,7 @@ def main():
         ctx.assumptions = list(getattr(mod, "ASSUMPTIONS", []))
         ctx.lean_audit(getattr(mod, "LEAN_MODULES", []))
         ctx.start_run_clock()
+        _arm_watchdog(ctx)
         ctx.is_replay = bool(args.replay)
         if args.replay:
             rep = json.load(open(args.replay))
